@@ -866,7 +866,7 @@ func checkGCOrder(r *Run, p *Prog, la *LockAnalysis) {
 		return
 	}
 	c := p.CFG(gc)
-	calls := CallsIn(gc, calleeIs(gcf))
+	calls := callsReaching(p, gc, gcf)
 	if len(calls) == 0 {
 		r.Undecide("C02.R5: GarbageCollect does not call garbageCollectFile")
 		return
@@ -914,22 +914,17 @@ func checkGCOrder(r *Run, p *Prog, la *LockAnalysis) {
 	r.ObPath("C02.R5.gc", "every success exit of GarbageCollect after a file rewrite persists the index from position 0", p.Position(calls[0].Pos()), ok && n > 0, "a success return that skips the persist leaves old offsets on disk next to compacted files", path)
 	// ... and so does every exit reached after some file was rewritten: a pass that fails on
 	// a later file has already compacted the earlier ones
-	if errObj := errVarOfCall(gc, calls[0]); errObj != nil {
-		var starts []Point
-		for e := range errNilEdges(c, errObj) {
-			starts = append(starts, Point{e.B.Succs[e.Succ], -1})
-		}
-		q2, vis2 := c.ReachAvoiding(starts, nil, isPersist)
+	{
+		// from the step itself: whatever it returned, every exit afterwards persists
+		q2, vis2 := c.ReachAvoiding([]Point{cp}, nil, isPersist)
 		var p2 []string
 		for _, ex := range c.Exits() {
 			if vis2[ex.P] && (ex.Return == nil || !isPersist(ex.Return)) {
 				p2 = q2.PathTo(ex.P)
 			}
 		}
-		r.ObPath("C02.R5.gc", "every exit of GarbageCollect reached after a file was rewritten persists the index, error exits included", p.Position(calls[0].Pos()), p2 == nil && len(starts) > 0,
+		r.ObPath("C02.R5.gc", "every exit of GarbageCollect reached after a file was rewritten persists the index, error exits included", p.Position(calls[0].Pos()), p2 == nil,
 			"a pass that fails on a later file returns with the earlier files compacted on disk and their old offsets still in index.domain: after a restart those domains read the wrong bytes or EOF", p2)
-	} else {
-		r.Undecide("C02.R5: the error of garbageCollectFile is not bound in GarbageCollect")
 	}
 	// persist under idx.mu W
 	for _, pt := range c.NodesWhere(isPersist) {
